@@ -103,7 +103,7 @@ KEY_LEAF = L("d", I("k0"))
 CONTAINERS = [L("d", I("n0")), L("d", I("n1")), L("d", I("n1"), I("m")), L("d", I("l")),
               L("d", I("o")), L("e", A("sub"))]
 COMP = [(L("d", I("l")), IDX_LEAF), (L("d", I("n0")), KEY_LEAF)]
-FN_NAMES = ["add2", "scale", "sq", "hyp"]
+FN_NAMES = ["add2", "scale", "sq", "hyp", "tot"]
 ATTR_ITEM_LABELS = ("g",)
 
 
@@ -492,6 +492,19 @@ class Model:
                 del self.knobs[op["name"]]
         elif k in ("verify", "cleanup", "refresh", "clone", "noop", "loadself"):
             pass
+        elif k == "load":
+            # Manager.load: the entries are installed one after the other; an entry whose target is already defined
+            # replaces that definition (overwrite=True) or is skipped (overwrite=False) - also when the earlier
+            # definition comes from the same dump
+            for loc, ast in op["entries"]:
+                key = tuple_loc(loc)
+                if key in self.defs:
+                    if not op["overwrite"]:
+                        continue
+                    self.defs.pop(key)
+                self.defs[key] = ast
+            self.update_k1()
+            self.recompute()
         else:
             raise ValueError(op)
 
@@ -630,6 +643,13 @@ class Real:
             self.m.clone()
         elif k == "loadself":
             self.m.load(self.m.dump())
+        elif k == "load":
+            dump = [(str(self.ref(tuple_loc(loc))), str(self.build(ast))) for loc, ast in op["entries"]]
+            self.m.load(dump, overwrite=op["overwrite"])
+            # load() installs definitions without evaluating them: bring the data up to date the way a user does - all
+            # expression and function tasks in dependency order (a LinearKnob applies an increment, it is not a definition:
+            # re-running it with a zero increment would only turn an int target into a float)
+            self.m.run_tasks([t for t in self.m.find_tasks() if not isinstance(t, LinearKnob)])
         elif k == "noop":
             pass
         else:
@@ -657,6 +677,9 @@ def render_op(op):
                 f"{[(w, ls(t)) for w, t in zip(op['weights'], op['targets'])]}")
     if k == "unregtask":
         return f"unregister({op['name']!r})"
+    if k == "load":
+        body = "; ".join(f"{ls(loc)} = {E.render(ast)}" for loc, ast in op["entries"])
+        return f"load([{body}], overwrite={op['overwrite']}) + run all tasks"
     return k
 
 
